@@ -34,9 +34,42 @@ PIN_FUNCS = [
     ("redun/file.py", "StagingFile", "__init__"),
     ("redun/file.py", "StagingDir", "__init__"),
     ("redun/utils.py", None, "iter_nested_value"),
-    ("redun/utils.py", None, "iter_nested_value_children"),
-    ("redun/utils.py", None, "map_nested_value"),
 ]
+# of these two only the branches for the containers the model has (list, tuple, dict) and the leaf
+# branch are pinned (the dataclass / set / namedtuple branches are outside the model)
+CHAIN_PINS = {
+    "iter_nested_value_children": ["v0 in (list, tuple, set) or (isinstance(value, tuple) and hasattr(value, '_fields'))",
+                                   "v0 is dict"],
+    "map_nested_value": ["v0 is list", "v0 is tuple", "v0 is dict"],
+}
+
+
+def chain_pin(fn, keep):
+    """pin of: the statements before the if/elif chain, the kept branches (test + body, in order) and the
+    final else branch of a function whose body ends with one if/elif/else chain"""
+    fn = alpha(fn)
+    b = body_nodoc(fn)
+    if not b or not isinstance(b[-1], ast.If):
+        fail(f"{fn.name}: expected the body to end with an if/elif chain", fn)
+    parts = [ast.dump(x, annotate_fields=False) for x in b[:-1]]
+    node = b[-1]
+    seen = []
+    while True:
+        t = src(node.test)
+        if t in keep:
+            seen.append(t)
+            parts.append(t + " => " + ";".join(ast.dump(x, annotate_fields=False) for x in node.body))
+        if len(node.orelse) == 1 and isinstance(node.orelse[0], ast.If):
+            node = node.orelse[0]
+            continue
+        if not node.orelse:
+            fail(f"{fn.name}: the chain has no final else (leaf) branch", fn)
+        parts.append("else => " + ";".join(ast.dump(x, annotate_fields=False) for x in node.orelse))
+        break
+    if seen != keep:
+        fail(f"{fn.name}: container branches {seen} (expected {keep})", fn)
+    import hashlib
+    return hashlib.sha256("\n".join(parts).encode()).hexdigest()[:16]
 
 
 def alpha(fn):
@@ -371,6 +404,8 @@ def translate(pins: dict | None = None, sources: dict | None = None):
     got = {}
     for path, cls, name in PIN_FUNCS:
         got[f"{path.split('/')[-1][:-3]}.{(cls + '.') if cls else ''}{name}"] = pin(alpha(find_func(mods[path], name, cls=cls)))
+    for name, keep in CHAIN_PINS.items():
+        got[f"utils.{name}[list,tuple,dict,leaf]"] = chain_pin(find_func(umod, name), keep)
     if pins is not None:
         for k, exp in pins.items():
             if k not in got:
